@@ -12,10 +12,10 @@ import (
 
 func init() {
 	register(&propCheck{
-		id:    "C13",
-		level: "other",
+		id:          "C13",
+		level:       "other",
 		explanation: "Static locking discipline of packages logs and logs/logrimp — the discipline whose violation is the data race and the lost message: (L1) in every structure that carries a mutex, each field that one of the concurrent entry points (the methods of Loggers, IMultipleLoggers, WriterWithSource, io.Writer, logr.LogSink) writes is written only under the write lock and read under at least the read lock, unexported helpers inheriting the locks all their callers hold; (L2) a structure without a mutex has no field written by a concurrent entry point unless the field's type synchronises itself; (L3) a writer handed to more than one log.New (independent log.Logger mutexes) is of a type whose Write is covered by L1; (L4) composite loggers/writers forward the caller's arguments to the same-named method of every member in a loop without early exit; (L5) every construction of the ring-buffered writer passes a non-nil dropped-messages logger and the drop callback reports the count through it; (L6) Log and LogError of the generic logger and of the Loggers→io.Writer adapters go to their own stream. Decided on SSA with a must-lockset analysis; nothing is executed. Not decided: delivery counts under real schedules, third-party loggers behind the adapters, atomicity of os.Stdout writes, the diode's own accounting.",
-		run:   runC13,
+		run:         runC13,
 		assumptions: []string{
 			"log.Logger serialises its own Output calls (standard library contract) but two log.Logger values do not serialise with each other",
 			"third-party sinks (zerolog, logrus, hclog, zap, slog) are goroutine-safe as documented",
@@ -529,9 +529,9 @@ func (c *Ctx) c13Composite() {
 // L5
 func (c *Ctx) c13Drops() {
 	ctor := map[string]int{
-		modPath + "/logs.NewDiodeWriterForSlowWriter":  3,
-		modPath + "/logs.NewAsynchronousLoggers":       6,
-		modPath + "/logs.NewJSONLoggerForSlowWriter":   5,
+		modPath + "/logs.NewDiodeWriterForSlowWriter": 3,
+		modPath + "/logs.NewAsynchronousLoggers":      6,
+		modPath + "/logs.NewJSONLoggerForSlowWriter":  5,
 	}
 	for _, sp := range c.SSAPkgs {
 		if !strings.HasPrefix(sp.Pkg.Path(), modPath) {
